@@ -68,9 +68,9 @@ class ExecMonitor(object):
                 if len(mon.stack) > mon.max_stack:
                     mon.max_stack = len(mon.stack)
                 mon.log.emit("exec-enter", cmd=key, n=mon.counts[key], depth=len(mon.stack))
-                if mon.on_enter:
-                    mon.on_enter(inst, key)
             try:
+                if outer and mon.on_enter:
+                    mon.on_enter(inst, key)    # may raise an injected fault: it then comes out of execute()
                 res = fn(inst, *args, **kwargs)
             except BaseException as exc:
                 active.pop()
